@@ -46,6 +46,15 @@ def imported_facts(B, bb):
         if len(ds) != 1 or ds[0][0] != 'call' or not (callee_of(ds[0][3]) or '').endswith('Try>::branch'):
             continue
         cont = [tb for v, tb in t['targets'] if v == '0']
+        if (callee_of(ds[0][3]) or '').startswith('<std::option::Option<T> as std::ops::Try>'):
+            # `x?` on an Option: past it x was Some, on its early-exit arm x was None (what `if let Some(v) = x { .. } else { return None }` establishes)
+            brk = [tb for v, tb in t['targets'] if v == '1']
+            xd = sdesc_operand(B, ds[0][3]['args'][0])
+            if cont and B.dominates(cont[0], bb) and B.preds[cont[0]] == [d]:
+                out.append((xd, 'Some'))
+            elif brk and B.dominates(brk[0], bb) and B.preds[brk[0]] == [d]:
+                out.append((xd, 'None'))
+            continue
         if not cont or not B.dominates(cont[0], bb) or B.preds[cont[0]] != [d]:
             continue
         al = op_local(ds[0][3]['args'][0])
@@ -96,7 +105,7 @@ def structural_facts(B, bb):
 import engine, inline
 
 TRIVIAL = re.compile(r'^(deref|deref_mut|as_ref|as_mut|borrow|borrow_mut|branch|from_residual|into|from|to_owned|clone|to_path_buf|to_string|new|'
-                     r'into_iter|iter|iter_mut|as_slice|as_str|is_some|is_none|is_ok|is_err|unwrap|expect|ok|map|and_then|or|unwrap_or|len|is_empty|'
+                     r'into_iter|iter|iter_mut|as_slice|as_str|is_some|is_none|is_ok|is_err|unwrap|expect|unwrap_err|expect_err|ok|map|and_then|or|unwrap_or|len|is_empty|'
                      r'eq|ne|cmp|partial_cmp|lt|gt|le|ge|not|default|collect|peekable|chars|display|fmt|format|must_use|new_display|new_debug|'
                      r'box_assume_init_into_vec_unsafe|new_uninit|path|path_buf|alt|alt_buf|rel|rel_buf|mode|file_name|components|last|first)$')
 
@@ -139,6 +148,35 @@ def _rv_desc(B, rv):
     if rv['k'] == 'aggregate' and rv.get('agg') == 'adt' and rv.get('fields'):
         return '%s{%s}' % (rv.get('variant') or '', ','.join('%s:%s' % (f, sdesc_operand(B, o, 1)) for f, o in zip(rv['fields'], rv['ops'])))
     return sdesc_rv(B, rv)
+
+
+def _is_try_payload(B, op):
+    """op is (a plain copy of) the value a `?` produced — no call, not even a conversion, in between"""
+    l = op_local(op)
+    for _ in range(5):
+        if l is None:
+            return False
+        ds = B.whole_defs(l)
+        if len(ds) != 1 or ds[0][0] != 'assign' or ds[0][4]['k'] != 'use' or ds[0][4]['op']['k'] not in ('copy', 'move'):
+            return False
+        pl = ds[0][4]['op']['place']
+        if pl['p']:
+            return len(pl['p']) == 2 and pl['p'][0]['k'] == 'downcast' and pl['p'][0].get('variant') == 'Continue' and pl['p'][1]['k'] == 'field'
+        l = pl['l']
+    return False
+
+
+def _balanced(x):
+    """x is one complete call expression `name(...)` (so that `x?` is the payload of that whole call)"""
+    if not x.endswith(')'):
+        return False
+    d = 0
+    for k, ch in enumerate(x):
+        d += ch in '([{<'
+        d -= ch in ')]}>'
+        if d == 0 and ch == ')' and k != len(x) - 1:
+            return False
+    return d == 0 and re.match(r'^[A-Za-z_][A-Za-z0-9_]*\(', x) is not None
 
 
 def returns_of(F, cg, fn, amap=None, prefix=(), depth=0):
@@ -186,11 +224,17 @@ def returns_of(F, cg, fn, amap=None, prefix=(), depth=0):
                 else:
                     out.append(('Ok', sorted(here)))
                 continue
+            if c.split('::')[-1] == 'from_residual' and (callee_of(t) or '').startswith('<std::option::Option<T> as std::ops::FromResidual'):
+                out.append(('None', sorted(set(prefix) | inline.fact_strings(structural_facts(B, i), canon_fact, amap))))          # `x?` on an Option returns None
+                continue
             if c.split('::')[-1] == 'from_residual':
                 continue          # the error arm of `?` (whether it is reachable at all depends on the callee: NeverErr pruning)
             if not (depth < 3 and c != fn and inline.is_new_helper(F, c)):
                 here = sorted(set(prefix) | inline.fact_strings(structural_facts(B, i), canon_fact, amap))
-                if c.split('::')[-1] in ('from', 'into', 'to_owned', 'to_path_buf', 'clone', 'as_ref', 'borrow') and len(t['args']) == 1:
+                if B.local_ty(0).startswith('std::result::Result'):
+                    # a tail call returning the function's own Result: `f()`, `let v = f()?; Ok(v)` and `match f() { Ok(v) => Ok(v), Err(e) => Err(e.into()) }` are one exit
+                    out.append(('Ok', here))
+                elif c.split('::')[-1] in ('from', 'into', 'to_owned', 'to_path_buf', 'clone', 'as_ref', 'borrow') and len(t['args']) == 1:
                     out.append(('value ' + inline.subst(sdesc_operand(B, t['args'][0]), amap), here))          # PathBuf::from(x) / x.into() are x
                 else:
                     out.append(('value ' + inline.subst(skey_call(B, t), amap), here))
@@ -426,6 +470,8 @@ def _collect(F, cg, fns):
                         d, tv = canon_fact(d[4:-1], not tv) if isinstance(tv, bool) else (d, tv)
                     facts = sorted(set(facts) | {'%s=%s' % (d, tv)})
                 res.setdefault('%s|return true' % fn, []).append(facts)
+            elif v == 'None':
+                continue          # for an Option-returning function `None` is the complement of its Some returns (as `false` is for a predicate)
             elif v.startswith('value '):
                 res.setdefault('%s|result' % fn, []).append([v[6:]] + facts)
             else:
